@@ -1,5 +1,11 @@
 """Per-property manifest texts."""
 CHECKS = {
+    "C17": {
+        "text": "ID.tla transcribes Tian & Pearl's Lemma 1, 3, 4 and IDENTIFY as term constructors (QLemma1, QLemma4, TianIdentify); TLC model-checks that the result denotes Q[C]=P(C|do(V\\C)) and fails exactly when TIdent says so on every 3-node ADMG, district, admissible C and topological order (IDMachine mode tian: Sound, TianComplete). The real compute_c_factor (Lemma 1 and Lemma 4 paths), identify_district_variables and compute_ancestral_set_q_value are run on every TLC-generated (G, T, C, order) and each returned term is validated by TLC (TV.tla kind q) against Q[S] on generic SCMs.",
+        "ref": "DESIGN.md section 4/C17",
+        "note": "Exhaustive on 3-node ADMGs x all (T, C, order); seeded slices of 4- and 5-node graphs. A refusal is always accepted (the statement allows failure); refusals where the reference succeeds are counted in the evidence.",
+        "technique": "TLA+ transcription of the lemmas model-checked against SCM semantics by TLC; trace validation of implementation outputs by TLC",
+    },
     "C01": {
         "text": "Sem.tla gives the SCM semantics (generic stochastic models compatible with a mixed graph, evaluated in GF(32749)) and the denotation Den of y0's expression language; ID.tla is a reference ID carrying the current distribution as a term. TLC model-checks the reference sound against the semantics on every 3-node ADMG and query (IDMachine: Sound). Every TLC-generated (G,X,Y) is then run through the real identify_outcomes/identify and the returned estimand is validated by TLC as a trace (TV.tla): Den(estimand) must equal P(Y|do X) by truncated factorisation at every value assignment of every variable (so a dependence on a free variable outside X and Y is a failure) for 2-3 independent generic models.",
         "ref": "DESIGN.md section 4/C01",
